@@ -226,9 +226,10 @@ def json_values(max_leaves=8, nonfinite=False):
 
 
 WIDE_JSON = {
-    # flat, but with more than a thousand containers / members
-    'rows': [[i, {'n': i}] for i in range(360)],
-    'index': {'k%d' % i: [] for i in range(300)},
+    # flat, but with 2 600 containers (more than any recursion limit in
+    # effect while a check runs)
+    'rows': [[i, {'n': i}] for i in range(1000)],
+    'index': {'k%d' % i: [] for i in range(600)},
 }
 
 
